@@ -11,6 +11,7 @@ open GridVerif.Proto GridVerif.Moments
   C14.rowindex <l> <m>                               -> ok <int>
   C14.moments  <type> <L> <dim> <fmat points> <fvec weights> <fvec f> <fmat centres>
                <ntabs> <fmat tab>…                   -> ok <fmat values> <imat orders> | error tag
+  C14.moments-flat <type> <L> <fvec points> <fvec weights> <fvec f> <fmat centres>   (points.ndim == 1)
   C14.dipole   <dim> <fmat points> <fvec weights> <fvec density> <fmat coords> <fvec charges>
                <fvec masses>                         -> ok <fvec> | error tag
   type ∈ cartesian | radial | pure | pure-radial
@@ -65,6 +66,19 @@ def handle : List String → Option String
     if rest ≠ [] then none else
     if pts.length ≠ w.length then none else
     match moments ty L (⟨dim, pts, w⟩ : Grid Float) cs f tabs with
+    | .ok (vals, orders) => pure s!"ok {sMat sFloat vals} {sMat toString orders}"
+    | .error e => pure (sErr e)
+  | "C14.moments-flat" :: ty :: L :: rest => do
+    -- Grid.moments on a grid with a one-dimensional point array (OneDGrid)
+    let ty ← pType ty
+    let L ← pNat L
+    let (pts, rest) ← pVec pFloat rest
+    let (w, rest) ← pVec pFloat rest
+    let (f, rest) ← pVec pFloat rest
+    let (cs, rest) ← pMat pFloat rest
+    if rest ≠ [] then none else
+    if pts.length ≠ w.length then none else
+    match moments ty L (Grid.ofFlat pts w : Grid Float) cs f [] with
     | .ok (vals, orders) => pure s!"ok {sMat sFloat vals} {sMat toString orders}"
     | .error e => pure (sErr e)
   | "C14.dipole" :: dim :: rest => do
